@@ -18,6 +18,7 @@ mod precompiles;
 mod prng;
 mod reference;
 mod replayfile;
+mod reservemodel;
 mod run;
 mod scenario;
 mod selfcheck;
